@@ -316,7 +316,26 @@ def run_rank_rand(ctx, spec):
     pass
 
 
+UTIL_FUNCS = ['FrequencyCount', 'SubSequences', 'SplitSequence', 'Scatter',
+              'Runs', 'LongestRunOfOnes', 'OverlappingRunsOfOnes',
+              'ReverseBits', 'Bits', 'BitCount', 'BinaryMatrixRank']
+
+
 def run(ctx, spec):
+  from paranoid_crypto.lib.randomness_tests import util as u
+  from vp import contracts
+  pm = contracts.PurityMonitor(ctx, keep=200)
+  for f in UTIL_FUNCS:
+    pm.wrap(u, f, norm=(lambda v: sorted(v)) if f == 'SubSequences' else (
+        (lambda v: list(v)) if f == 'Bits' else None))
+  try:
+    _run(ctx, spec)
+    pm.recheck()
+  finally:
+    pm.restore()
+
+
+def _run(ctx, spec):
   s = spec['shard']
   if s.startswith('exh'):
     run_exh(ctx, spec)
